@@ -13,6 +13,18 @@ package cmpp20
 //@   theory T1
 //@   layout dec
 
+//@ func (p *PduConnect) GetCommand
+//@   layout cmd
+
+//@ func (p *PduConnect) GenEmptyResponse
+//@   layout resp
+
+//@ func (p *PduConnect) SetSequenceID
+//@   layout setseq
+
+//@ func (p *PduConnect) GetSequenceID
+//@   layout getseq
+
 //@ func (pr *PduConnectResp) IEncode
 //@   theory T1
 //@   layout enc
@@ -20,6 +32,18 @@ package cmpp20
 //@ func (pr *PduConnectResp) IDecode
 //@   theory T1
 //@   layout dec
+
+//@ func (p *PduConnectResp) GetCommand
+//@   layout cmd
+
+//@ func (p *PduConnectResp) GenEmptyResponse
+//@   layout resp
+
+//@ func (pr *PduConnectResp) SetSequenceID
+//@   layout setseq
+
+//@ func (pr *PduConnectResp) GetSequenceID
+//@   layout getseq
 
 //@ func (p *PduTerminate) IEncode
 //@   theory T1
@@ -29,6 +53,18 @@ package cmpp20
 //@   theory T1
 //@   layout dec
 
+//@ func (p *PduTerminate) GetCommand
+//@   layout cmd
+
+//@ func (p *PduTerminate) GenEmptyResponse
+//@   layout resp
+
+//@ func (p *PduTerminate) SetSequenceID
+//@   layout setseq
+
+//@ func (p *PduTerminate) GetSequenceID
+//@   layout getseq
+
 //@ func (p *PduTerminateResp) IEncode
 //@   theory T1
 //@   layout enc
@@ -36,6 +72,18 @@ package cmpp20
 //@ func (p *PduTerminateResp) IDecode
 //@   theory T1
 //@   layout dec
+
+//@ func (p *PduTerminateResp) GetCommand
+//@   layout cmd
+
+//@ func (p *PduTerminateResp) GenEmptyResponse
+//@   layout resp
+
+//@ func (p *PduTerminateResp) SetSequenceID
+//@   layout setseq
+
+//@ func (p *PduTerminateResp) GetSequenceID
+//@   layout getseq
 
 //@ func (p *PduSubmit) IEncode
 //@   theory T1
@@ -45,6 +93,18 @@ package cmpp20
 //@   theory T1
 //@   layout dec
 
+//@ func (p *PduSubmit) GetCommand
+//@   layout cmd
+
+//@ func (p *PduSubmit) GenEmptyResponse
+//@   layout resp
+
+//@ func (p *PduSubmit) SetSequenceID
+//@   layout setseq
+
+//@ func (p *PduSubmit) GetSequenceID
+//@   layout getseq
+
 //@ func (pr *PduSubmitResp) IEncode
 //@   theory T1
 //@   layout enc
@@ -52,6 +112,18 @@ package cmpp20
 //@ func (pr *PduSubmitResp) IDecode
 //@   theory T1
 //@   layout dec
+
+//@ func (p *PduSubmitResp) GetCommand
+//@   layout cmd
+
+//@ func (p *PduSubmitResp) GenEmptyResponse
+//@   layout resp
+
+//@ func (pr *PduSubmitResp) SetSequenceID
+//@   layout setseq
+
+//@ func (pr *PduSubmitResp) GetSequenceID
+//@   layout getseq
 
 //@ func (p *PduQuery) IEncode
 //@   theory T1
@@ -61,6 +133,18 @@ package cmpp20
 //@   theory T1
 //@   layout dec
 
+//@ func (p *PduQuery) GetCommand
+//@   layout cmd
+
+//@ func (p *PduQuery) GenEmptyResponse
+//@   layout resp
+
+//@ func (p *PduQuery) SetSequenceID
+//@   layout setseq
+
+//@ func (p *PduQuery) GetSequenceID
+//@   layout getseq
+
 //@ func (p *PduQueryResp) IEncode
 //@   theory T1
 //@   layout enc
@@ -68,6 +152,18 @@ package cmpp20
 //@ func (p *PduQueryResp) IDecode
 //@   theory T1
 //@   layout dec
+
+//@ func (p *PduQueryResp) GetCommand
+//@   layout cmd
+
+//@ func (p *PduQueryResp) GenEmptyResponse
+//@   layout resp
+
+//@ func (p *PduQueryResp) SetSequenceID
+//@   layout setseq
+
+//@ func (p *PduQueryResp) GetSequenceID
+//@   layout getseq
 
 //@ func (p *PduDeliver) IEncode
 //@   theory T1
@@ -77,6 +173,18 @@ package cmpp20
 //@   theory T1
 //@   layout dec
 
+//@ func (p *PduDeliver) GetCommand
+//@   layout cmd
+
+//@ func (p *PduDeliver) GenEmptyResponse
+//@   layout resp
+
+//@ func (p *PduDeliver) SetSequenceID
+//@   layout setseq
+
+//@ func (p *PduDeliver) GetSequenceID
+//@   layout getseq
+
 //@ func (pr *PduDeliverResp) IEncode
 //@   theory T1
 //@   layout enc
@@ -84,6 +192,18 @@ package cmpp20
 //@ func (pr *PduDeliverResp) IDecode
 //@   theory T1
 //@   layout dec
+
+//@ func (p *PduDeliverResp) GetCommand
+//@   layout cmd
+
+//@ func (p *PduDeliverResp) GenEmptyResponse
+//@   layout resp
+
+//@ func (pr *PduDeliverResp) SetSequenceID
+//@   layout setseq
+
+//@ func (pr *PduDeliverResp) GetSequenceID
+//@   layout getseq
 
 //@ func (p *PduActiveTest) IEncode
 //@   theory T1
@@ -93,6 +213,18 @@ package cmpp20
 //@   theory T1
 //@   layout dec
 
+//@ func (p *PduActiveTest) GetCommand
+//@   layout cmd
+
+//@ func (p *PduActiveTest) GenEmptyResponse
+//@   layout resp
+
+//@ func (p *PduActiveTest) SetSequenceID
+//@   layout setseq
+
+//@ func (p *PduActiveTest) GetSequenceID
+//@   layout getseq
+
 //@ func (pr *PduActiveTestResp) IEncode
 //@   theory T1
 //@   layout enc
@@ -100,6 +232,21 @@ package cmpp20
 //@ func (pr *PduActiveTestResp) IDecode
 //@   theory T1
 //@   layout dec
+
+//@ func (p *PduActiveTestResp) GetCommand
+//@   layout cmd
+
+//@ func (p *PduActiveTestResp) GenEmptyResponse
+//@   layout resp
+
+//@ func (pr *PduActiveTestResp) SetSequenceID
+//@   layout setseq
+
+//@ func (pr *PduActiveTestResp) GetSequenceID
+//@   layout getseq
+
+//@ func DecodeCMPP20
+//@   layout dispatch
 
 // ---- hand-written below ----
 
@@ -120,7 +267,7 @@ package cmpp20
 //@     invariant entry(packet.rfailed(b)) ==> packet.rfailed(b)
 //@     invariant !packet.rfailed(b) ==> len(packet.rem(b)) <= entry(len(packet.rem(b)))
 //@     invariant alloc <= entry(alloc) + 42 * i
-//@     invariant @dec !packet.rfailed(b) && packet.rem(b) == cat(rep(elems(q.DestTerminalID), 21, i, len(q.DestTerminalID)), laysuffix(q, "DestTerminalID"))
-//@     invariant @dec forall j int :: 0 <= j && j < i ==> p.DestTerminalID[j] == q.DestTerminalID[j]
+//@     invariant @dec !packet.rfailed(b) && packet.rem(b) == cat(rep(elems(gq.DestTerminalID), 21, i, len(gq.DestTerminalID)), laysuffix(gq, "DestTerminalID"))
+//@     invariant @dec forall j int :: 0 <= j && j < i ==> p.DestTerminalID[j] == gq.DestTerminalID[j]
 //@     invariant @safe !packet.rfailed(b) ==> (forall j int :: 0 <= j && j < i ==> nonul(p.DestTerminalID[j]) && len(p.DestTerminalID[j]) <= 21)
 //@     decreases int(p.DestUsrTL) - i
